@@ -268,6 +268,11 @@ def exact_total(values):
                 return None
             n = len(v)
     is_f = any(vkind(v) in ("float", "arr_float") for v in vals)
+    if n is not None and n > 64:              # large sample arrays: vectorised, still exact (int64 / dyadic float64)
+        tot = np.zeros(n, dtype=np.float64 if is_f else np.int64)
+        for v in vals:
+            tot = tot + (np.asarray(v, dtype=tot.dtype) if isinstance(v, np.ndarray) else pyval(v))
+        return ("arr_float" if is_f else "arr_int", ("np", np.ascontiguousarray(tot).tobytes()))
     if n is None:
         return ("float" if is_f else "int", sum((Fraction(pyval(v)) for v in vals), Fraction(0)))
     tot = [Fraction(0)] * n
@@ -281,6 +286,8 @@ def value_as_exact(v):
     if v is None:
         return ("none", None)
     if isinstance(v, np.ndarray):
+        if len(v) > 64:
+            return (vkind(v), ("np", np.ascontiguousarray(v, dtype=np.float64 if v.dtype.kind == "f" else np.int64).tobytes()))
         return (vkind(v), tuple(Fraction(x) for x in v.tolist()))
     return (vkind(v), Fraction(pyval(v)))
 
